@@ -353,11 +353,9 @@ func addFreshSpecs(add func(*fnSpec)) {
 			}
 			return []valuni.Val{optForms(r, l), pickSmall(r)}
 		}, Weight: 3})
-	// an any-object parameter changed in place. NOT part of the workload (feature "fresh-any" is never switched
-	// on by Cases): on the unchanged tree value.DeepCast returns an any-object argument as it is (cast.go, case
-	// AnyObjectValueKind: return &val), so the callee's set() is written into the host's value - a genuine
-	// aliasing of the host's argument, reported by the arg check (TestArgAnyObjectAliased shows it).
-	add(&fnSpec{Name: "arg_any", Only: "fresh-any", Params: []param{p("o", valuni.AnyObj()), p("k", tStr), p("v", tInt)}, Ret: tInt,
+	// an any-object parameter changed in place (until 87e6720 value.DeepCast handed an any-object argument on as it
+	// was and the callee's set() was written into the host's value: TestArgAnyObjectAliased)
+	add(&fnSpec{Name: "arg_any", Only: "fresh", Params: []param{p("o", valuni.AnyObj()), p("k", tStr), p("v", tInt)}, Ret: tInt,
 		Src: `fn arg_any(o: { ? }, k: str, v: int) -> int {
     o.set(k, v);
     o.keys().len()
